@@ -289,4 +289,48 @@ theorem shuffleBy_perm {α : Type} (σ : List Nat) (l r : List α) (h : shuffleB
     rw [h1, h2]; exact hσ.map _
   exact (List.map_perm_map_iff (fun a b hab => Option.some.inj hab)).mp h3
 
+/-! ### from coordinates to solutions -/
+section
+variable {F : Type}
+
+/-- Lifting a per-coordinate guarantee to a whole solution (Option-valued operators). -/
+theorem zipDomainM_all (f : F → F × F → Option F) (P : F × F → F → Prop) :
+    ∀ (xs : List F) (ds : List (F × F)), xs.length = ds.length →
+    (∀ k (hk : k < xs.length) (hd : k < ds.length), ∃ y, f xs[k] ds[k] = some y ∧ P ds[k] y) →
+    ∃ ys, zipDomainM f xs ds = some ys ∧ ys.length = xs.length ∧
+      ∀ k (hk : k < ys.length) (hd : k < ds.length), P ds[k] ys[k]
+  | [], [], _, _ => ⟨[], by simp [zipDomainM], rfl, by simp⟩
+  | [], _ :: _, h, _ => by simp at h
+  | _ :: _, [], h, _ => by simp at h
+  | x :: xs, d :: ds, h, hf => by
+    obtain ⟨y, hy, py⟩ := hf 0 (by simp) (by simp)
+    obtain ⟨ys, hys, hl, hp⟩ := zipDomainM_all f P xs ds (by simpa using h)
+      (fun k hk hd => by
+        have := hf (k + 1) (by simpa using hk) (by simpa using hd)
+        simp only [List.getElem_cons_succ] at this
+        exact this)
+    refine ⟨y :: ys, by simp at hy; simp [zipDomainM, hy, hys], by simp [hl], ?_⟩
+    intro k hk hd
+    cases k with
+    | zero => simpa using py
+    | succ k => simpa using hp k (by simpa using hk) (by simpa using hd)
+
+/-- The same for total operators. -/
+theorem zipDomain_all (f : F → F × F → F) (P : F × F → F → Prop) :
+    ∀ (xs : List F) (ds : List (F × F)), xs.length = ds.length →
+    (∀ x, ∀ d ∈ ds, P d (f x d)) →
+    ∀ k (hk : k < (zipDomain f xs ds).length) (hd : k < ds.length), P ds[k] (zipDomain f xs ds)[k]
+  | [], [], _, _ => by simp [zipDomain]
+  | [], _ :: _, h, _ => by simp at h
+  | _ :: _, [], h, _ => by simp at h
+  | x :: xs, d :: ds, h, hf => by
+    intro k hk hd
+    cases k with
+    | zero => simpa [zipDomain] using hf x d (by simp)
+    | succ k =>
+      have := zipDomain_all f P xs ds (by simpa using h) (fun x' d' hd' => hf x' d' (by simp [hd'])) k
+        (by simpa [zipDomain] using hk) (by simpa using hd)
+      simpa [zipDomain] using this
+end
+
 end MahfModel.Boundary
